@@ -2709,6 +2709,10 @@ static Type *struct_decl(Token **rest, Token *tok) {
       bits += mem->ty->size * 8;
     }
 
+    // Unnamed bit-fields do not affect the alignment of the struct.
+    if (mem->is_bitfield && !mem->name)
+      continue;
+
     if (!ty->is_packed && ty->align < mem->align)
       ty->align = mem->align;
   }
@@ -2729,7 +2733,7 @@ static Type *union_decl(Token **rest, Token *tok) {
   // are already initialized to zero. We need to compute the
   // alignment and the size though.
   for (Member *mem = ty->members; mem; mem = mem->next) {
-    if (ty->align < mem->align)
+    if (ty->align < mem->align && !(mem->is_bitfield && !mem->name))
       ty->align = mem->align;
     if (ty->size < mem->ty->size)
       ty->size = mem->ty->size;
